@@ -1336,6 +1336,16 @@ class Unit:
                 em.emit("} // mod %s" % blk["mod"], {"kind": "glue"})
             else:
                 self._emit_any(em, blk)
+        # class G completeness: a unit that puts grammar actions under contract must cover every alternative that has an action
+        # (a new alternative without a contract would silently stay outside the claim "every action ...")
+        for rel, sf in self.files.items():
+            gm = getattr(sf, "grammar_meta", None)
+            if gm is not None and self.cfg.get("grammar_complete", False):
+                used = {r_["find"][3:] for r_ in self.prov["items"] if r_.get("file") == rel and r_["find"].startswith("fn ")}
+                missing = sorted(set(gm) - used)
+                self.prov["grammar_actions"] = {"rendered": len(gm), "under_contract": len(used & set(gm))}
+                if missing:
+                    raise LostAnchor("%s: grammar alternative(s) with an action but without a contract: %s" % (rel, ", ".join(missing)))
         if self.fmt_patterns:
             em.emit(VSTR_TRAIT, {"kind": "trusted", "what": "class F: VStr (Display of String/str is the string itself)", "file": "tools/units.py"})
             for pat in sorted(self.fmt_patterns):
